@@ -304,7 +304,10 @@ func isWatcher(c *chk.Ctx, g *ssa.Go, body *ssa.Function) (bool, string) {
 		switch x := ins.(type) {
 		case *ssa.UnOp:
 			if x.Op == token.ARROW {
+				// (the channel may be handed to the goroutine as a parameter: ctx.Done() at the go statement)
 				if ctx, ok := doneRecvCtx(x.X); ok {
+					waits = append(waits, ctx)
+				} else if ctx, ok := doneRecvCtx(c.P.Canon(x.X)); ok {
 					waits = append(waits, ctx)
 				} else {
 					waits = append(waits, x.X)
@@ -320,6 +323,8 @@ func isWatcher(c *chk.Ctx, g *ssa.Go, body *ssa.Function) (bool, string) {
 					return false, "select with a send case"
 				}
 				if ctx, ok := doneRecvCtx(st.Chan); ok {
+					waits = append(waits, ctx)
+				} else if ctx, ok := doneRecvCtx(c.P.Canon(st.Chan)); ok {
 					waits = append(waits, ctx)
 				} else {
 					waits = append(waits, st.Chan)
